@@ -419,7 +419,16 @@ class FTPProcessorSession(BaseProcessorSession):
 
             _logger.debug('symlink {} -> {}', symlink_path, link_target)
 
-            os.symlink(link_target, symlink_path)
+            try:
+                os.symlink(link_target, symlink_path)
+            except OSError as error:
+                # The name comes from the listing: listed twice, already
+                # there from an earlier run, or naming a missing directory.
+                _logger.warning(
+                    _('Could not create symbolic link {symlink_path}: {error}'),
+                    symlink_path=symlink_path, error=error
+                )
+                return
 
             _logger.info(
                 _('Created symbolic link {symlink_path} to target {symlink_target}.'),
